@@ -3,7 +3,7 @@
    the largest one -- and of the most abundant species itself.  (Before the repair D5 only the latter was judged.) *)
 From Coq Require Import Reals List Lra Lia.
 Import ListNotations.
-From MPC Require Import Num Species RInst Gibbs.
+From MPC Require Import Num Species RInst StatMech RVec Gibbs.
 Open Scope R_scope.
 
 Section Stop.
@@ -101,3 +101,50 @@ Qed.
 Example small_step_hypotheses_satisfiable :
   species_residual RNum 1 1 1 1 1 0 0 = 0 /\ Rabs (1 - 1) / 1 <= 0 /\ Rabs (1 / 1 - 1) <= 0.
 Proof. unfold species_residual. rnum. replace (1 - 1) with 0 by ring. replace (1 / 1 - 1) with 0 by field. rewrite Rabs_R0. repeat split; lra. Qed.
+
+(* ... so every reaction among such species (stoichiometric vector nu orthogonal to the constraint columns, hence
+   sum nu_i (A lam)_i = 0) is balanced to within delta * sum |nu_i| in units of kT: the quantitative law of mass action
+   for a converged composition.  Entries: (nu_i, mu_i, (A lam)_i). *)
+Definition t_nu (t : R * R * R) : R := fst (fst t).
+Definition t_mu (t : R * R * R) : R := snd (fst t).
+Definition t_al (t : R * R * R) : R := snd t.
+
+Lemma weighted_abs_bound (delta : R) (l : list (R * R * R)) (r : R * R * R -> R) :
+  (forall t, In t l -> Rabs (r t) <= delta) ->
+  Rabs (Rsum (map (fun t => t_nu t * r t) l)) <= delta * Rsum (map (fun t => Rabs (t_nu t)) l).
+Proof.
+  induction l as [|t l IH]; intros H; cbn [map Rsum].
+  - rewrite Rabs_R0. lra.
+  - eapply Rle_trans; [apply Rabs_triang|]. rewrite Rabs_mult.
+    assert (H1 : Rabs (r t) <= delta) by (apply H; left; reflexivity).
+    assert (H2 := IH (fun u Hu => H u (or_intror Hu))).
+    assert (Rabs (t_nu t) * Rabs (r t) <= Rabs (t_nu t) * delta) by (apply Rmult_le_compat_l; [apply Rabs_pos | exact H1]).
+    lra.
+Qed.
+
+Theorem reaction_balance_bound (kt delta : R) (l : list (R * R * R)) :
+  0 < kt ->
+  (forall t, In t l -> Rabs ((t_mu t + t_al t) / kt) <= delta) ->
+  Rsum (map (fun t => t_nu t * t_al t) l) = 0 ->
+  Rabs (Rsum (map (fun t => t_nu t * t_mu t) l) / kt) <= delta * Rsum (map (fun t => Rabs (t_nu t)) l).
+Proof.
+  intros Hkt Hb Hz.
+  assert (E : Rsum (map (fun t => t_nu t * t_mu t) l) / kt
+              = Rsum (map (fun t => t_nu t * ((t_mu t + t_al t) / kt)) l) - Rsum (map (fun t => t_nu t * t_al t) l) / kt).
+  { clear Hb Hz. induction l as [|t l IH]; cbn [map Rsum]; [field; lra|].
+    replace ((t_nu t * t_mu t + Rsum (map (fun t0 => t_nu t0 * t_mu t0) l)) / kt)
+      with (t_nu t * t_mu t / kt + Rsum (map (fun t0 => t_nu t0 * t_mu t0) l) / kt) by (field; lra).
+    rewrite IH. field. lra. }
+  rewrite E, Hz. replace (0 / kt) with 0 by (field; lra). rewrite Rminus_0_r.
+  apply weighted_abs_bound. exact Hb.
+Qed.
+
+(* non-vacuity: O2 <-> 2 O at exact mass action, mu = -(A lam) with lam = 1 on the O column *)
+Example reaction_balance_example :
+  let l := [((1, -2), 2); ((-2, -1), 1)] in
+  (forall t, In t l -> Rabs ((t_mu t + t_al t) / 1) <= 0) /\ Rsum (map (fun t => t_nu t * t_al t) l) = 0.
+Proof.
+  cbv zeta. split.
+  - intros t [<-|[<-|[]]]; unfold t_mu, t_al; cbn [fst snd]; [replace ((-2 + 2) / 1) with 0 by field | replace ((-1 + 1) / 1) with 0 by field]; rewrite Rabs_R0; lra.
+  - unfold t_nu, t_al. cbn [map Rsum fst snd]. ring.
+Qed.
